@@ -24,7 +24,7 @@ YOUR TASK: produce THREE different changes to that code (call them A, B, C) of t
   2. PRESERVES the behaviour the property talks about for every input: argue why, and take care with the corner cases the property quantifies over;
   3. still compiles and the pinned test suite passes as before:   cd %(root)s/%(pid)s && /venv/bin/python -m pytest -q -p no:cacheprovider --continue-on-collection-errors   must print "59 passed, 10 errors" (the 10 collection errors are the baseline: dbus, gi etc. are not installed);
   4. comes with a DEMONSTRATION demo_X.py (X = A, B, C), run from the worktree root as  /venv/bin/python demo_X.py , that drives the REAL code through the situations the property is about (including the awkward ones: boundaries, interleavings, malformed input as appropriate) and exits 0 when the property holds, 1 when it is violated. It must exit 0 on the unmodified worktree AND with your change applied.
-Make the three changes different in kind and, where possible, in different functions; aim for changes that LOOK risky to a pattern-matching checker (they touch the guards, loops, state updates and calls the property depends on) while being correct. Medium-sized is best: 10-60 changed lines each.
+Make the three changes different in kind and, where possible, in different functions; aim for changes that LOOK risky to a pattern-matching checker (they touch the guards, loops, state updates and calls the property depends on) while being correct. Small to medium-sized is best: 5-40 changed lines each.
 
 PRACTICALITIES
  - The libraries dbus, gi (GLib), crcmod, portion, yaml, certvalidator, macaddress, psutil are NOT installed; scapy, cbor2, pycose (cose), cryptography are. To run the real modules your demo has to put small stand-ins for the missing libraries into sys.modules before importing the project (a dbus.service.Object base with signal/method decorators that record emissions, dbus types such as UInt64/Boolean as int/bool subclasses, a GLib stand-in whose io/idle/timeout sources you crank by hand, crcmod.predefined.mkPredefinedCrcFun for 'x-25' and 'crc-32c', a minimal portion interval set). Put them in one module demo_stubs.py shared by your three demos.
